@@ -59,6 +59,15 @@ Theorem mode_is_right : forall c tr, in_space c -> outcome prog c = Ok (VTree tr
   (ie \/ fe -> ~ In "energy" (leaves tr ++ computed tr)).
 Proof. exact (mode_right prog groups_ok). Qed.
 
+(* "matches the formulas", structurally: every step of the derivation applies the DOCUMENTED kernel for its
+   outputs (Spec.spec_krules) to derivations of exactly its documented inputs; with the kernel theorems of
+   C01 / C03 / C05 this is the documented formula tree.  (The numeric value is additionally compared with the
+   closed formulas on the implementation by the correspondence run.) *)
+Theorem derivation_is_documented : forall c tr m, in_space c -> outcome prog c = Ok (VTree tr) ->
+  spec_mode (present c) (c_o c) (c_t c) = Some m ->
+  Documented (spec_krules (c_sc c) m (c_o c)) tr.
+Proof. exact (documented prog groups_ok). Qed.
+
 (* the graph deduce_conversion_graph reports is the one and only graph convert hands to
    transform_coords; if the former raises, convert raises the same exception before transforming *)
 Theorem reported_graph_is_used : forall c, in_space c ->
@@ -101,4 +110,5 @@ Print Assumptions convert_total.
 Print Assumptions convert_iff_derivable.
 Print Assumptions supplied_takes_precedence.
 Print Assumptions mode_is_right.
+Print Assumptions derivation_is_documented.
 Print Assumptions reported_graph_is_used.
